@@ -196,6 +196,12 @@ pub fn c15(cfg: &Cfg, rep: &mut Report) {
             }
             c15_big(cfg, rep, cfg.case_seed(9_000_000 + i), &cli, &dir, &wrapper);
         }
+        for i in 0..cfg.get_usize("mid_cli_cases", if cfg.thorough { 12 } else { 3 }) {
+            if rep.too_many() {
+                break;
+            }
+            c15_mid(cfg, rep, cfg.case_seed(4_000_000 + i), &cli, &dir, &wrapper);
+        }
         for i in 0..cfg.get_usize("wide_cases", if cfg.thorough { 4 } else { 1 }) {
             if rep.too_many() {
                 break;
@@ -242,7 +248,7 @@ fn c15_known_probes(_cfg: &Cfg, rep: &mut Report, cli: &str, dir: &Path) {
 pub fn c15_case(cfg: &Cfg, rep: &mut Report, case_seed: u64, cli: &str, dir: &Path, wrapper: &[String]) {
     let nm = cfg.get_usize("nmax", if cfg.thorough { 7 } else { 5 });
     let case = small_case(case_seed, nm);
-    c15_run(cfg, rep, case_seed, case, cli, dir, wrapper, false);
+    c15_run(cfg, rep, case_seed, case, cli, dir, wrapper, false, None);
 }
 
 /// wide frameworks (9 to 11 loosely coupled statements, hundreds of two-valued models): long model streams
@@ -252,11 +258,22 @@ pub fn c15_wide(cfg: &Cfg, rep: &mut Report, case_seed: u64, cli: &str, dir: &Pa
     let case = crate::sem::wide_case(case_seed, n);
     rep.count("wide_cases", 1);
     rep.max("wide_case_two_valued_models", case.sem.two_valued().len() as u64);
-    c15_run(cfg, rep, case_seed, case, cli, dir, wrapper, true);
+    c15_run(cfg, rep, case_seed, case, cli, dir, wrapper, true, None);
+}
+
+/// mid-size frameworks (12 to 60 statements, up to ten left undecided by grounding): every flag, every library mode,
+/// judged by the definitional answers found among the refinements of the grounded interpretation
+pub fn c15_mid(cfg: &Cfg, rep: &mut Report, case_seed: u64, cli: &str, dir: &Path, wrapper: &[String]) {
+    let m = crate::sem::mid_case(case_seed, cfg.thorough);
+    rep.count("mid_cli_cases", 1);
+    rep.max("max_statements_in_a_cli_run_with_all_flags", m.g.n as u64);
+    rep.max("mid_max_two_valued_models", m.two.len() as u64);
+    let case = SmallCase { g: m.g.clone(), text: m.text.clone(), sem: oracle::sem::Sem::from_tts(Vec::new()), bio_ok: m.g.bio_safe() };
+    c15_run(cfg, rep, case_seed, case, cli, dir, wrapper, false, Some(&m));
 }
 
 #[allow(clippy::too_many_arguments)]
-fn c15_run(cfg: &Cfg, rep: &mut Report, case_seed: u64, mut case: SmallCase, cli: &str, dir: &Path, wrapper: &[String], wide: bool) {
+fn c15_run(cfg: &Cfg, rep: &mut Report, case_seed: u64, mut case: SmallCase, cli: &str, dir: &Path, wrapper: &[String], wide: bool, mid: Option<&crate::sem::MidCase>) {
     let mut rng = Rng::new(case_seed ^ 0xC15);
     if !printable(&case) {
         // re-draw labels without line breaks, keep the structure
@@ -272,11 +289,13 @@ fn c15_run(cfg: &Cfg, rep: &mut Report, case_seed: u64, mut case: SmallCase, cli
     rep.evaluations += 1;
     let file = dir.join(format!("case-{}.adf", case_seed));
     std::fs::write(&file, &case.text).expect("write case file");
-    let grounded = case.sem.grounded();
-    // (a wide framework has 3^n complete interpretations: its complete section is not requested)
-    let complete = if wide { Vec::new() } else { case.sem.complete() };
-    let stable = case.sem.stable();
-    let twoval = case.sem.two_valued();
+    // (a wide framework has 3^n complete interpretations: its complete section is not requested; the same holds for
+    // a mid-size framework with too many statements left undecided by grounding)
+    let no_complete = wide || mid.map(|m| m.complete.is_none()).unwrap_or(false);
+    let (grounded, complete, stable, twoval) = match mid {
+        Some(m) => (m.grounded.clone(), m.complete.clone().unwrap_or_default(), m.stable.clone(), m.two.clone()),
+        None => (case.sem.grounded(), if wide { Vec::new() } else { case.sem.complete() }, case.sem.stable(), case.sem.two_valued()),
+    };
     // statement order per sort flag
     let rec = oracle::grammar::recognise(&case.text).expect("generated text is valid");
     let decl: Vec<String> = rec.statements.clone();
@@ -310,7 +329,7 @@ fn c15_run(cfg: &Cfg, rep: &mut Report, case_seed: u64, mut case: SmallCase, cli
             .collect();
         let line = |v: &Vec<Val>| line_of(v, &names_in_order);
         // flags
-        let mut flags: Vec<&str> = SEM_FLAGS.iter().copied().filter(|f| rng.chance(2, 5) && !(wide && *f == "--com")).collect();
+        let mut flags: Vec<&str> = SEM_FLAGS.iter().copied().filter(|f| rng.chance(2, 5) && !(no_complete && *f == "--com")).collect();
         if flags.is_empty() {
             flags.push(*rng.pick(&SEM_FLAGS[2..]));
         }
@@ -411,13 +430,26 @@ fn c15_run(cfg: &Cfg, rep: &mut Report, case_seed: u64, mut case: SmallCase, cli
             }
             for (j, (o, label)) in names_in_order.iter().enumerate() {
                 let (c, m) = (nums[2 * j], nums[2 * j + 1]);
-                let sat = case.sem.tt[*o].count_ones() as u128;
-                let unsat = (1u128 << case.g.n) - sat;
+                // (mid-size frameworks: satisfying assignments counted over the condition's own support; the ratio is what counts)
+                let (sat, total) = match mid {
+                    Some(_) => {
+                        let sup = case.g.ac[*o].atom_list();
+                        let mut sat = 0u128;
+                        for bits in 0..(1usize << sup.len()) {
+                            if case.g.ac[*o].eval(&|i| (bits >> sup.iter().position(|x| *x == i).unwrap()) & 1 == 1) {
+                                sat += 1;
+                            }
+                        }
+                        (sat, 1u128 << sup.len())
+                    }
+                    None => (case.sem.tt[*o].count_ones() as u128, 1u128 << case.g.n),
+                };
+                let unsat = total - sat;
                 rep.count("cli_model_counts_checked", 1);
                 if c + m == 0 || m * unsat != c * sat {
                     rep.violation(
                         "cli-counter-ratio",
-                        format!("{:?}: statement {:?} counted (cmodels {}, models {}) but {} of {} assignments satisfy its condition", args, label, c, m, sat, 1u128 << case.g.n),
+                        format!("{:?}: statement {:?} counted (cmodels {}, models {}) but {} of {} assignments satisfy its condition", args, label, c, m, sat, total),
                         replay,
                     );
                     return;
